@@ -116,6 +116,9 @@ def register(R):
           'extended(self._returned, old(self._returned), values)',
           # the last producer to stop wakes up every waiting consumer
           'implies(enq_done(self), notified_all(self._dequeue_lock))'],
+      # publication: whenever the state lock is released after the counter update (in particular around the
+      # notification that announces end-of-stream) the producer's return values are already recorded
+      at_release={'self._states_lock': ['extended(self._returned, old(self._returned), values)']},
       bounded='bounded_queue_sequences'))
   R.add(Contract(
       f'{ITER}::IteratorQueue.maybe_stop', PROPS, types=dict(t, exc='exc?'),
@@ -150,6 +153,8 @@ def register(R):
 
   def _blocking(it, env):
     it.ghost['__on_wait__'] = _shared_state_changes(env['self'])
+    for l in ('_dequeue_lock', '_enqueue_lock'):       # monitor rule for condition waits (no lost wake-up)
+      env['self'].f[l].recheck = True
     if 'removed' in it.ghost:
       it.assume(it.ghost['removed'].seq.n == 0)
 
